@@ -248,6 +248,8 @@ def pytype_of(v):
         return v.pycls
     if isinstance(v, TokenM):
         return _token_class()
+    if isinstance(v, PyRaise):
+        return v.etype          # an exception bound by ``except ... as ex``
     return type(v)
 
 
